@@ -576,6 +576,14 @@ func (p *Parser) ParsingIter() iter.Seq[*ParserReply] {
 		const depth0 int = 0
 		for {
 			expr, err = p.ParseExpression(depth0)
+			if err == nil && expr == SexpEnd && p.lexer.InLiteral() {
+				// the input ran out inside a string or rune literal
+				p.sendMe.Err = ErrMoreInputNeeded
+				if !yield(p.sendMe) {
+					return
+				}
+				continue
+			}
 			if err != nil || expr == SexpEnd {
 				p.sendMe.Err = err
 				yield(p.sendMe)
